@@ -154,6 +154,55 @@ def sym_partition(args):
     return out
 
 
+def two_calls_item(args):
+    """one ParCons object aggregates dataset A, then dataset B: what the first consensus reports (flag, weak partitioning,
+    rankings) must not change, and the second result must satisfy the property as well"""
+    cfg, lvA, lvB, names = args
+    from corankco.consensus import ConsensusFeature
+    sweep.install()
+    out = []
+    dsA, dsB = shapes.build(lvA, names), shapes.build(lvB, names)
+    B, T = fork.scheme_vars()
+    sc = fork.make_scheme(B, T)
+    ex = fork.Explorer(fork.valid_scheme(B, T), max_paths=int(2e5))
+
+    def view(c):
+        wp = c.features.get(ConsensusFeature.WEAK_PARTITIONING)
+        return (bool(c.necessarily_optimal), [sorted(str(e) for e in g) for g in wp] if wp is not None else None,
+                [[sorted(str(e) for e in b) for b in r] for r in c.consensus_rankings])
+
+    def path(ctx):
+        log = []
+        alg, _ = sweep.make_config(cfg, log)
+        try:
+            c1 = alg.compute_consensus_rankings(dsA, sc, True)
+        except harness.HarnessError:
+            raise
+        except harness.Inconclusive:
+            raise
+        except Exception:  # noqa
+            return
+        v1 = view(c1)
+        n1 = len(log)
+        o = sweep.observe(ctx, cfg, lvB, names, True, B, T, sc, dsB, alg=alg)
+        o.log = log[n1:]
+        v1b = view(c1)
+        if v1 != v1b:
+            o.lvs = lvA
+            pl = sweep.payload(o, None, f"what the first consensus reports changed after the same ParCons object aggregated another dataset: {v1} -> {v1b}", "stale-features")
+            ctx._ensure_model()
+            pl["scheme"] = fork.scheme_values(ctx.model, B, T)
+            pl["second"] = shapes.raw_json(lvB, names)
+            pl["rankings"] = shapes.raw_json(lvA, names)
+            out.append(pl)
+            return
+        sweep.chk_crash(o, out)
+        chk_parcons(o, out)
+    ex.explore(path)
+    STATS.sample({"config": cfg, "same ParCons object": [shapes.raw_json(lvA, names), shapes.raw_json(lvB, names)], "scheme": "12 symbolic reals"})
+    return out
+
+
 def run(run):
     sweep.install()
     if run.thorough:
@@ -187,7 +236,15 @@ def run(run):
                               strata=strata, strata_heavy=strata_h)
     run.bounds["partition sweep"] = part_bounds["Copeland"]
     run.pmap("algorithm", sweep.run_item, sweep.order_items(items2), chunksize=1)
-    run.extra["work_items"] = len(items) + len(items2)
+    c3 = sweep.comp3plus1()
+    tie4 = ((0, 0, 0, 0), (0, 0, 0, 0))
+    two = [("ParCons(2,Copeland)", c3[0], tie4, sweep.NAMINGS[4][0]), ("ParCons(2,Copeland)", tie4, c3[0], sweep.NAMINGS[4][1]),
+           ("ParCons(1,Copeland)", c3[4], c3[1], sweep.NAMINGS[4][2]), ("ParCons", c3[0], c3[5], sweep.NAMINGS[4][0])]
+    if run.thorough:
+        two += [("ParCons(2,Copeland)", c3[i], c3[(i + 3) % len(c3)], sweep.NAMINGS[4][i % 3]) for i in range(1, 7)]
+    run.bounds["same ParCons object on two datasets"] = len(two)
+    run.pmap("two_calls", two_calls_item, two)
+    run.extra["work_items"] = len(items) + len(items2) + len(two)
     run.extra["stubs"] = sweep.install()
 
 
@@ -217,6 +274,17 @@ def replay(p):
             if ok:
                 bestc = s if bestc is None or s < bestc else bestc
         return bestc is None or bestc > best + 1e-9, f"partition {part}: best consistent score {bestc}, optimum {best}"
+    if chk == "stale-features":
+        from corankco.dataset import Dataset
+        from corankco.scoringscheme import ScoringScheme
+        sweep.install()
+        sc = ScoringScheme([[float(x) for x in v] for v in p["scheme"]])
+        alg, _ = sweep.make_config(p["config"], [])
+        c1 = alg.compute_consensus_rankings(Dataset.from_raw_list(shapes.from_json(p["rankings"])), sc, True)
+        v1 = (bool(c1.necessarily_optimal), str(c1.features.get(ConsensusFeature.WEAK_PARTITIONING)), str(c1.consensus_rankings))
+        alg.compute_consensus_rankings(Dataset.from_raw_list(shapes.from_json(p["second"])), sc, True)
+        v2 = (bool(c1.necessarily_optimal), str(c1.features.get(ConsensusFeature.WEAK_PARTITIONING)), str(c1.consensus_rankings))
+        return v1 != v2, f"first consensus reported {v1}; after the same object aggregated {p['second']}: {v2}"
     ds, sc, alg, cons, exc, log = sweep.concrete_run(p)
     if exc is not None:
         return chk == "raises", f"raised {type(exc).__name__}: {exc}"
